@@ -179,6 +179,77 @@ def _canon_augassign(tree: ast.AST) -> int:
     return n
 
 
+def _canon_allany(tree: ast.AST) -> int:
+    """Normal form: the search loop `for x in it: if [not] p(x): return <const>` followed by `return <other const>` is presented as
+    `return all(p(x) for x in it)` / `return any(...)` (and the negated variants)."""
+    n = 0
+    for fn in ast.walk(tree):
+        if not isinstance(fn, (ast.FunctionDef, ast.AsyncFunctionDef)):
+            continue
+        stack = [fn.body]
+        while stack:
+            body = stack.pop()
+            i = 0
+            while i + 1 < len(body):
+                a, b = body[i], body[i + 1]
+                if isinstance(a, ast.For) and not a.orelse and len(a.body) == 1 and isinstance(a.body[0], ast.If) and not a.body[0].orelse \
+                        and len(a.body[0].body) == 1 and isinstance(a.body[0].body[0], ast.Return) \
+                        and isinstance(a.body[0].body[0].value, ast.Constant) and isinstance(a.body[0].body[0].value.value, bool) \
+                        and isinstance(b, ast.Return) and isinstance(b.value, ast.Constant) and isinstance(b.value.value, bool) \
+                        and b.value.value != a.body[0].body[0].value.value \
+                        and not any(isinstance(x, (ast.NamedExpr, ast.Await, ast.Yield)) for x in ast.walk(a.body[0].test)):
+                    found = a.body[0].body[0].value.value  # value returned when the test holds for some element
+                    test = a.body[0].test
+                    if found:   # some element passes -> True, else False : any(test)
+                        fname, elt = "any", test
+                    else:       # some element passes the test -> False, else True : all(not test)
+                        fname = "all"
+                        elt = test.operand if isinstance(test, ast.UnaryOp) and isinstance(test.op, ast.Not) else ast.UnaryOp(op=ast.Not(), operand=test)
+                    gen = ast.GeneratorExp(elt=elt, generators=[ast.comprehension(target=a.target, iter=a.iter, ifs=[], is_async=0)])
+                    b.value = ast.copy_location(ast.Call(func=ast.Name(id=fname, ctx=ast.Load()), args=[gen], keywords=[]), a)
+                    ast.fix_missing_locations(b)
+                    del body[i]
+                    n += 1
+                    continue
+                i += 1
+            for st in body:
+                if isinstance(st, (ast.FunctionDef, ast.AsyncFunctionDef, ast.ClassDef)):
+                    continue
+                for fld in ("body", "orelse", "finalbody"):
+                    v = getattr(st, fld, None)
+                    if isinstance(v, list) and v and isinstance(v[0], ast.stmt):
+                        stack.append(v)
+                if isinstance(st, ast.Try):
+                    for h in st.handlers:
+                        stack.append(h.body)
+    return n
+
+
+def _canon_tuple_assign(tree: ast.AST) -> int:
+    """Normal form: `a, b = e1, e2` (plain name targets, none of them read by e1/e2) is presented as `a = e1` followed by `b = e2`."""
+    n = 0
+    for parent in ast.walk(tree):
+        for fld in ("body", "orelse", "finalbody"):
+            lst = getattr(parent, fld, None)
+            if not (isinstance(lst, list) and lst and isinstance(lst[0], ast.stmt)):
+                continue
+            i = 0
+            while i < len(lst):
+                st = lst[i]
+                if isinstance(st, ast.Assign) and len(st.targets) == 1 and isinstance(st.targets[0], ast.Tuple) and isinstance(st.value, ast.Tuple) \
+                        and len(st.targets[0].elts) == len(st.value.elts) and all(isinstance(t, ast.Name) for t in st.targets[0].elts) \
+                        and not any(isinstance(v, ast.Starred) for v in st.value.elts):
+                    tn = {t.id for t in st.targets[0].elts}
+                    if len(tn) == len(st.targets[0].elts) and not any(isinstance(x, ast.Name) and x.id in tn for v in st.value.elts for x in ast.walk(v)):
+                        lst[i:i + 1] = [ast.copy_location(ast.Assign(targets=[t], value=v), st) for t, v in zip(st.targets[0].elts, st.value.elts)]
+                        n += 1
+                        continue
+                i += 1
+        if isinstance(parent, ast.Try):
+            pass
+    return n
+
+
 def _canon_items(tree: ast.AST) -> int:
     """Normal form: `for k in d:` whose first statement is `v = d[k]` (d a name or attribute chain, v bound nowhere else in the
     loop) is presented to the rules as `for k, v in d.items():`."""
@@ -259,7 +330,7 @@ class Index:
         self.dehoisted = 0
         for mi in self.modules.values():
             self.dehoisted += dehoist_chains(mi.tree)
-            self.canonicalised += _canon_returns(mi.tree) + _canon_augassign(mi.tree) + _canon_items(mi.tree)
+            self.canonicalised += _canon_returns(mi.tree) + _canon_augassign(mi.tree) + _canon_items(mi.tree) + _canon_allany(mi.tree) + _canon_tuple_assign(mi.tree)
         for mi in self.modules.values():
             self._scan_module(mi)
 
